@@ -9,6 +9,8 @@ import (
 	"testing"
 	"time"
 
+	"golang.org/x/crypto/ssh"
+	"golang.org/x/crypto/ssh/knownhosts"
 	"pgregory.net/rapid"
 
 	"github.com/scrapli/scrapligo/driver/generic"
@@ -23,18 +25,63 @@ import (
 type Case struct {
 	Transport  string `json:"transport"`   // system, standard
 	NoStrict   bool   `json:"no_strict"`   // WithAuthNoStrictKey
-	KnownHosts string `json:"known_hosts"` // has, other, empty, none
+	KnownHosts string `json:"known_hosts"` // has, other, empty, none, list
+	// KHList (known_hosts == list): the file's entries, in order. pq = "[127.0.0.1]:port",
+	// bare = "127.0.0.1", hashed = hashed form of the port-qualified name, otherhost = another
+	// address; right/wrong = the server's key / some other key.
+	KHList []string `json:"kh_list,omitempty"`
 	Auth       string `json:"auth"`        // password, key, both
 	User       string `json:"user"`
 	Password   string `json:"password"`
 	Config     bool   `json:"config"` // an ssh config file is given
 }
 
+var khKinds = []string{"pq-right", "pq-wrong", "bare-right", "bare-wrong", "hashed-pq-right", "hashed-pq-wrong", "otherhost-right", "comment"}
+
+// khExpect: "ok" (must connect), "fail" (must not), "" (the two ssh implementations legitimately
+// differ: first-entry-wins vs any-entry, and the fallback from port-qualified to bare names).
+func khExpect(list []string) string {
+	pqRight, pqWrong, bareRight := false, false, false
+
+	for _, e := range list {
+		switch e {
+		case "pq-right", "hashed-pq-right":
+			pqRight = true
+		case "pq-wrong", "hashed-pq-wrong":
+			pqWrong = true
+		case "bare-right":
+			bareRight = true
+		}
+	}
+
+	switch {
+	case pqRight && !pqWrong:
+		return "ok"
+	case pqRight && pqWrong:
+		return ""
+	case pqWrong:
+		return "fail" // a different key is on record for this very server
+	case bareRight:
+		return "" // OpenSSH falls back to the bare name, x/crypto/knownhosts does not
+	}
+
+	return "fail"
+}
+
 func gen(t *rapid.T) Case {
+	c := genBase(t)
+	if c.KnownHosts == "list" {
+		c.KHList = rapid.SliceOfN(rapid.SampledFrom(khKinds), 1, 4).Draw(t, "khList")
+	}
+
+	return c
+}
+
+func genBase(t *rapid.T) Case {
 	return Case{
 		Transport:  rapid.SampledFrom([]string{"system", "standard"}).Draw(t, "transport"),
 		NoStrict:   rapid.Bool().Draw(t, "noStrict"),
-		KnownHosts: rapid.SampledFrom([]string{"has", "other", "empty", "none"}).Draw(t, "knownHosts"),
+		KnownHosts: rapid.SampledFrom([]string{"has", "other", "empty", "none", "list", "list"}).Draw(t, "knownHosts"),
 		Auth:       rapid.SampledFrom([]string{"password", "key", "both"}).Draw(t, "auth"),
 		User:       "u" + rapid.StringMatching(`[a-z0-9]{2,8}`).Draw(t, "user"),
 		Password:   "Pw-" + rapid.StringMatching(`[a-zA-Z0-9]{6,12}`).Draw(t, "password"),
@@ -104,6 +151,39 @@ func run(c Case) ev.Verdict {
 		_ = os.WriteFile(khPath, []byte(line+"\n"), 0o600)
 	case "empty":
 		_ = os.WriteFile(khPath, nil, 0o600)
+	case "list":
+		_, otherPub, kerr := sim.GenClientKey()
+		if kerr != nil {
+			return ev.Verdict{OK: false, Msg: "INFRA: " + kerr.Error()}
+		}
+
+		right := strings.TrimSpace(string(ssh.MarshalAuthorizedKey(srv.HostKey.PublicKey())))
+		wrong := strings.TrimSpace(string(ssh.MarshalAuthorizedKey(otherPub)))
+		pq := fmt.Sprintf("[127.0.0.1]:%d", srv.Port)
+
+		var sb strings.Builder
+
+		for _, e := range c.KHList {
+			key := right
+			if strings.HasSuffix(e, "-wrong") {
+				key = wrong
+			}
+
+			switch {
+			case e == "comment":
+				sb.WriteString("# managed by verif\n\n")
+			case strings.HasPrefix(e, "pq-"):
+				sb.WriteString(pq + " " + key + "\n")
+			case strings.HasPrefix(e, "bare-"):
+				sb.WriteString("127.0.0.1 " + key + "\n")
+			case strings.HasPrefix(e, "hashed-pq-"):
+				sb.WriteString(knownhosts.HashHostname(pq) + " " + key + "\n")
+			case strings.HasPrefix(e, "otherhost-"):
+				sb.WriteString(fmt.Sprintf("[10.9.8.7]:%d %s\n", srv.Port, key))
+			}
+		}
+
+		_ = os.WriteFile(khPath, []byte(sb.String()), 0o600)
 	}
 
 	cfgPath := filepath.Join(dir, "ssh_config")
@@ -144,6 +224,16 @@ func run(c Case) ev.Verdict {
 	}
 
 	wantOK := c.NoStrict || c.KnownHosts == "has"
+	eitherWay := false
+
+	if c.KnownHosts == "list" && !c.NoStrict {
+		switch khExpect(c.KHList) {
+		case "ok":
+			wantOK = true
+		case "":
+			eitherWay = true
+		}
+	}
 
 	t0 := time.Now()
 	openErr := d.Open()
@@ -157,12 +247,12 @@ func run(c Case) ev.Verdict {
 		return ev.Verdict{OK: true, Infeasible: true, Classes: []string{"slow-open"}, Note: fmt.Sprintf("open took %v (%v)", took, openErr)}
 	}
 
-	if wantOK && openErr != nil {
-		return ev.Fail("%s transport, strict=%v, known-hosts=%s, auth=%s: Open failed: %v", c.Transport, !c.NoStrict, c.KnownHosts, c.Auth, openErr)
+	if wantOK && openErr != nil && !eitherWay {
+		return ev.Fail("%s transport, strict=%v, known-hosts=%s%v, auth=%s: Open failed: %v", c.Transport, !c.NoStrict, c.KnownHosts, c.KHList, c.Auth, openErr)
 	}
 
-	if !wantOK && openErr == nil {
-		return ev.Fail("%s transport with strict host-key checking and known-hosts=%s: connection was established", c.Transport, c.KnownHosts)
+	if !wantOK && openErr == nil && !eitherWay {
+		return ev.Fail("%s transport with strict host-key checking and known-hosts=%s%v: connection was established", c.Transport, c.KnownHosts, c.KHList)
 	}
 
 	users, passwords, keys, methods := srv.Snapshot()
@@ -290,6 +380,14 @@ func run(c Case) ev.Verdict {
 	v := ev.Verdict{OK: true, Classes: []string{"transport=" + c.Transport, fmt.Sprintf("strict=%v", !c.NoStrict), "kh=" + c.KnownHosts, "auth=" + c.Auth, fmt.Sprintf("open-ok=%v", openErr == nil)}}
 	v.NonTrivial = (!c.NoStrict && c.KnownHosts != "has") || c.Auth != "password"
 
+	if c.KnownHosts == "list" {
+		v.Classes = append(v.Classes, "kh-list-expect="+khExpect(c.KHList))
+
+		if eitherWay {
+			v.Classes = append(v.Classes, "kh-list-either-outcome-allowed")
+		}
+	}
+
 	return v
 }
 
@@ -329,6 +427,28 @@ func runGrid(t *testing.T) {
 						ev.FailExternal(t, "grid", c, v)
 					}
 				}
+			}
+		}
+	}
+
+	// fixed known-hosts entry lists, both transports
+	for _, tr := range []string{"system", "standard"} {
+		for _, l := range [][]string{
+			{"pq-wrong", "bare-right"}, {"bare-right", "pq-wrong"}, {"hashed-pq-right"}, {"hashed-pq-wrong", "bare-right"},
+			{"otherhost-right"}, {"comment", "pq-right"}, {"bare-wrong", "otherhost-right"}, {"hashed-pq-wrong"},
+		} {
+			idx++
+			if idx%shards != shard {
+				continue
+			}
+
+			c := Case{Transport: tr, KnownHosts: "list", KHList: l, Auth: "password", User: fmt.Sprintf("grid%d", idx), Password: fmt.Sprintf("Pw-grid-%d", idx)}
+			v := prop.Exec(t, c)
+			ran++
+			ev.RecordExternal("grid", c, v)
+
+			if !v.OK {
+				ev.FailExternal(t, "grid", c, v)
 			}
 		}
 	}
